@@ -300,3 +300,95 @@ pub fn run(req: &mut J) -> Result<J, String> {
     }
     Ok(J::Object(obs))
 }
+
+
+/// op `crash`: construct, apply filesystem faults, render everything; only the outcome class
+/// is reported (value / error counts). Panics are caught by the caller; aborts kill the
+/// process and are detected by the orchestrator.
+pub fn run_crash(req: &mut J) -> Result<J, String> {
+    let scratch = scratch_dir();
+    let root = scratch.0.clone();
+    {
+        let files = req.get_mut("files").and_then(J::as_array_mut).ok_or("missing files")?;
+        materialise(&root, files)?;
+    }
+    // generated bulk content (long include chains) is created here to keep requests small
+    if let Some(n) = req.get("chain").and_then(J::as_u64) {
+        for i in 0..n {
+            let body = if i + 1 < n { format!("classes: [c{}]\n", i + 1) } else { "parameters: {end: true}\n".to_string() };
+            std::fs::create_dir_all(root.join("classes")).ok();
+            std::fs::write(root.join(format!("classes/c{i}.yml")), body).map_err(|e| e.to_string())?;
+        }
+        std::fs::create_dir_all(root.join("nodes")).ok();
+        std::fs::write(root.join("nodes/chain.yml"), "classes: [c0]\n").map_err(|e| e.to_string())?;
+    }
+    if let Some(n) = req.get("nest").and_then(J::as_u64) {
+        let s = format!("parameters:\n  a: a\n  deep: \"{}a{}\"\n", "${".repeat(n as usize), "}".repeat(n as usize));
+        std::fs::create_dir_all(root.join("nodes")).ok();
+        std::fs::write(root.join("nodes/nest.yml"), s).map_err(|e| e.to_string())?;
+    }
+    std::fs::create_dir_all(root.join("nodes")).ok();
+    std::fs::create_dir_all(root.join("classes")).ok();
+    let cfgj = req.get("config").cloned().unwrap_or(json!({}));
+    let cfg = match make_config(&root, &cfgj) {
+        Ok(c) => c,
+        Err(_) => return Ok(json!({"constructed": "err-config"})),
+    };
+    let r = match Reclass::new_from_config(cfg) {
+        Ok(r) => r,
+        Err(_) => return Ok(json!({"constructed": "err"})),
+    };
+    // faults between discovery and rendering
+    if let Some(faults) = req.get("faults").and_then(J::as_array) {
+        for f in faults {
+            let p = root.join(f.get("path").and_then(J::as_str).unwrap_or(""));
+            match f.get("kind").and_then(J::as_str).unwrap_or("") {
+                "delete" => {
+                    let _ = std::fs::remove_file(&p);
+                }
+                "truncate" => {
+                    let _ = std::fs::write(&p, "");
+                }
+                "garbage" => {
+                    let _ = std::fs::write(&p, "{{{: [unclosed\n\t- x");
+                }
+                "nonutf8" => {
+                    let _ = std::fs::write(&p, [0xff, 0xfe, 0x00, 0xc3, 0x28, b'a', b':', b' ', 0xff]);
+                }
+                "chmod" => {
+                    use std::os::unix::fs::PermissionsExt;
+                    let _ = std::fs::set_permissions(&p, std::fs::Permissions::from_mode(0o000));
+                }
+                "dir" => {
+                    let _ = std::fs::remove_file(&p);
+                    let _ = std::fs::create_dir_all(&p);
+                }
+                "rmdir" => {
+                    let _ = std::fs::remove_dir_all(&p);
+                }
+                _ => {}
+            }
+        }
+    }
+    let names: Vec<String> = r.nodes().map_err(|e| e.to_string())?.keys().cloned().collect();
+    let mut ok = 0;
+    let mut err = 0;
+    for n in &names {
+        match r.render_node(n) {
+            Ok(_) => ok += 1,
+            Err(_) => err += 1,
+        }
+    }
+    let inv_ok = r.render_inventory().is_ok();
+    // restore permissions so the scratch directory can be removed
+    if let Some(faults) = req.get("faults").and_then(J::as_array) {
+        for f in faults {
+            if f.get("kind").and_then(J::as_str) == Some("chmod") {
+                use std::os::unix::fs::PermissionsExt;
+                let p = root.join(f.get("path").and_then(J::as_str).unwrap_or(""));
+                let _ = std::fs::set_permissions(&p, std::fs::Permissions::from_mode(0o644));
+            }
+        }
+    }
+    Ok(json!({"constructed": "ok", "nodes_ok": ok, "nodes_err": err, "inventory_ok": inv_ok}))
+}
